@@ -34,7 +34,7 @@ ASSUMPTIONS = ['laws as listed in DESIGN.md §2 C18']
 EXHAUSTIVE_NOTE = 'orientation laws over all 4^3 triples; position/transform laws over all coordinates in [-3,3] (pairs) / [-2,2] (triples of transforms with all orientations)'
 REQUIRED = {'quick': {'law.orientation_group': 64, 'law.linear': 1000, 'law.isometry': 500, 'law.transform_assoc': 1000,
                       'law.transform_inverse': 200, 'law.transform_action': 1000, 'law.area_image': 500,
-                      'law.grid_rotation': 200, 'law.next_position': 400, 'law.bigint': 500}}
+                      'law.grid_rotation': 200, 'law.next_position': 400, 'law.bigint': 500, 'law.mutation_history': 1000}}
 O = [Orientation.F, Orientation.R, Orientation.B, Orientation.L]
 
 
@@ -116,6 +116,49 @@ def transform_laws(ctx, triples):
                 lambda: f'image of area {A} under {t1} is not the set of images of its positions', dict(pl, area=[list(A.ys), list(A.xs)]))
 
 
+def mutation_history_laws(ctx, n, rng):
+    """the laws must keep holding for the *same* Transform / Grid objects after they are updated in place
+    through their public fields (as Agent.position/orientation setters and the transition functions do)"""
+    I = Transform(Position(0, 0), Orientation.F)
+    for k in range(n):
+        t = Transform(Position(rng.randint(-9, 9), rng.randint(-9, 9)), rng.choice(O))
+        u = Transform(Position(rng.randint(-9, 9), rng.randint(-9, 9)), rng.choice(O))
+        x = Position(rng.randint(-9, 9), rng.randint(-9, 9))
+        history = []
+        for step in range(6):
+            pl = {'t': [[t.position.y, t.position.x, t.orientation.name], [u.position.y, u.position.x, u.orientation.name], [0, 0, 'FORWARD']],
+                  'x': [x.y, x.x], 'history': list(history)}
+            fresh = Transform(Position(t.position.y, t.position.x), t.orientation)
+            law(ctx, 'mutation_history', lambda: t * (-t) == I and (-t) * t == I and (-t) == (-fresh) and (-t) * (t * x) == x
+                and (t * u) * x == t * (u * x) and hash(t) == hash(fresh) and t == fresh,
+                lambda: f'after in-place updates {history} the transform {t} no longer satisfies inverse/action laws: -t = {-t}, '
+                        f'fresh inverse = {-fresh}', pl)
+            what = rng.choice(['position', 'orientation', 'both'])
+            if what in ('position', 'both'):
+                t.position = Position(rng.randint(-9, 9), rng.randint(-9, 9))
+            if what in ('orientation', 'both'):
+                t.orientation = rng.choice(O)
+            history.append(what)
+        # the same through an Agent (setters write into its transform)
+        from gym_gridverse.agent import Agent
+        a = Agent(Position(1, 2), Orientation.R)
+        _ = -a.transform
+        a.position = Position(rng.randint(0, 5), rng.randint(0, 5))
+        a.orientation = rng.choice(O)
+        law(ctx, 'mutation_history', lambda: a.transform * (-a.transform) == I and a.front() == a.transform * Position(-1, 0),
+            lambda: f'agent transform {a.transform} after setters: inverse {-a.transform} is stale', {'t': [[a.position.y, a.position.x, a.orientation.name]] * 3, 'x': [0, 0]})
+        # grids updated in place keep rotating correctly
+        h, w = rng.randint(1, 4), rng.randint(1, 4)
+        g = Grid([[Floor() for _ in range(w)] for _ in range(h)])
+        o = rng.choice(O)
+        _ = g * o
+        marked = Wall()
+        g[rng.randrange(h), rng.randrange(w)] = marked
+        law(ctx, 'mutation_history', lambda: sum(x is marked for row in (g * o).objects for x in row) == 1
+            and [[id(x) for x in r] for r in ((g * o) * (-o)).objects] == [[id(x) for x in r] for r in g.objects],
+            lambda: f'rotation of a {h}x{w} grid by {o.name} after an in-place cell update lost the update', {'shape': [h, w], 'o': o.name})
+
+
 def grid_laws(ctx, shapes, rng):
     for (h, w) in shapes:
         grid = Grid([[Wall() if rng.random() < 0.3 else Floor() for _ in range(w)] for _ in range(h)])
@@ -190,6 +233,7 @@ def run(ctx):
             ctx.hit('law.bigint')
         transform_laws(ctx, big)
         position_laws(ctx, [tuple(rng.randint(-10**20, 10**20) for _ in range(4)) for _ in range(ctx.pick(100, 40000))])
+        mutation_history_laws(ctx, ctx.pick(150, 5000), rng)
         shapes = [(h, w) for h in range(1, 7) for w in range(1, 8)]
         grid_laws(ctx, [s for i, s in enumerate(shapes) if ctx.mine(i)], rng)
         cases = [(y, x, o, a) for y in (-2, 0, 3) for x in (-1, 0, 5) for o in O for a in Action]
@@ -210,6 +254,8 @@ def replay(ctx, kind, payload):
     elif lawname in ('transform_assoc', 'transform_inverse', 'transform_action', 'area_image'):
         ts = [Transform(Position(t[0], t[1]), Orientation[t[2]]) for t in payload['t']]
         transform_laws(ctx, [(ts[0], ts[1], ts[2], Position(*payload['x']))])
+    elif lawname == 'mutation_history':
+        mutation_history_laws(ctx, 200, gen.rng_for('replay'))
     elif lawname == 'grid_rotation':
         grid_laws(ctx, [tuple(payload['shape'])], gen.rng_for('replay'))
     elif lawname == 'next_position':
